@@ -622,8 +622,86 @@ fn check_options_api(qi: usize) -> CaseResult {
     Ok(Eval::new(true, qi as u64 ^ 0x0b7).class("options-api:checked"))
 }
 
+/// How a token reads does not depend on how many tokens the same parser has
+/// read before it: `k` copies in one list, in one vector and as a top-level
+/// stream read by one Parser must each read like the token alone.
+fn check_repeat(tok: &str, qi: usize, k: usize) -> CaseResult {
+    let q = QOpt::from_index(qi);
+    let case = || json!({"repeat": {"token": tok, "q": qi, "k": k}});
+    let fail = |sig: String, msg: String| Failure::new(format!("C08 repeated class={} {}", token_class(tok), sig), format!("{} [token {:?} x {}, parser options #{}]", msg, tok, k, qi), case());
+    let alone = match catch(|| lexpr::from_str_custom(tok, q.to_lexpr())) {
+        Ok(Ok(v)) => MV::from_value(&v),
+        // not a datum on its own under these options: nothing to compare with
+        _ => return Ok(Eval::new(false, 0).class("repeat:token-rejected")),
+    };
+    let body = std::iter::repeat(tok).take(k).collect::<Vec<_>>().join(" ");
+    for (form, text) in [("list", format!("({})", body)), ("vector", format!("#({})", body)), ("nested", format!("(a ({}) b)", body))] {
+        let got = match catch(|| lexpr::from_str_custom(&text, q.to_lexpr())) {
+            Err(pm) => return Err(fail(format!("form={} panic={}", form, panic_sig(&pm)), pm)),
+            Ok(Err(e)) => return Err(fail(format!("form={} rejected err={}", form, err_text(&e)), format!("{} copies in one {} are rejected ({}) although the token alone reads as {}", k, form, e, short(&alone)))),
+            Ok(Ok(v)) => MV::from_value(&v),
+        };
+        let items: Vec<MV> = match (&got, form) {
+            (MV::List(xs, t), "list") if **t == MV::Null => xs.clone(),
+            (MV::Vec(xs), "vector") => xs.clone(),
+            (MV::List(xs, _), "nested") => match xs.get(1) {
+                Some(MV::List(ys, t)) if **t == MV::Null => ys.clone(),
+                _ => Vec::new(),
+            },
+            _ => Vec::new(),
+        };
+        if items.len() != k {
+            return Err(fail(format!("form={} count", form), format!("{} copies in one {} read as {} items", k, form, items.len())));
+        }
+        if let Some(i) = items.iter().position(|x| *x != alone) {
+            return Err(fail(format!("form={} item-differs", form), format!("copy number {} of {} in one {} reads as {} although the token alone reads as {}", i + 1, k, form, short(&items[i]), short(&alone))));
+        }
+    }
+    // one Parser over a stream of k copies, value and datum API
+    let stream = std::iter::repeat(tok).take(k).collect::<Vec<_>>().join("\n");
+    for datum in [false, true] {
+        let r = catch(|| -> Result<(), (String, String)> {
+            let mut p = lexpr::Parser::from_reader_custom(std::io::Cursor::new(stream.as_bytes()), q.to_lexpr());
+            for i in 0..k {
+                let item = if datum { p.next_datum().map(|o| o.map(|d| MV::from_value(d.value()))) } else { p.next_value().map(|o| o.map(|v| MV::from_value(&v))) };
+                match item {
+                    Ok(Some(m)) if m == alone => {}
+                    Ok(Some(m)) => return Err((format!("form=stream{} item-differs", if datum { "-datum" } else { "" }), format!("item {} of the stream reads as {} although the token alone reads as {}", i + 1, short(&m), short(&alone)))),
+                    Ok(None) => return Err((format!("form=stream{} count", if datum { "-datum" } else { "" }), format!("the stream of {} copies ended after {} items", k, i))),
+                    Err(e) => return Err((format!("form=stream{} rejected err={}", if datum { "-datum" } else { "" }, err_text(&e)), format!("item {} of the stream is rejected: {}", i + 1, e))),
+                }
+            }
+            Ok(())
+        });
+        match r {
+            Err(pm) => return Err(fail(format!("form=stream panic={}", panic_sig(&pm)), pm)),
+            Ok(Err((sig, msg))) => return Err(fail(sig, msg)),
+            Ok(Ok(())) => {}
+        }
+    }
+    Ok(Eval::new(true, digest_of(&(tok, qi, k))).class("repeat:checked"))
+}
+
+const REPEAT_TOKENS: &[&str] = &["'x", "`x", ",x", ",@x", "''x", "'(a)", "'()", ":a", "a:", "#:a", "nil", "t", "#t", "#f", "#nil", "()", "[]", "[a]", "#()", "#(a)", "#u8()", "#u8(1)", "?a", "#\\a", "\"s\"", "\"\"", "1", "-1.5", "#x1F", "#%a", "|a b|", "a", "-", "...", "(a . b)", "(a)", "(())"];
+
 fn run(ctx: &mut Ctx) {
     let tier = ctx.tier;
+    {
+        let qs: Vec<usize> = {
+            let mut v = vec![0usize, QOpt::elisp().index()];
+            v.extend((0..tier.pick(6, 40)).map(|i| (mix(ctx.seed, 7000 + i as u64) % N_QOPT as u64) as usize));
+            v
+        };
+        let mut reps = Vec::new();
+        for t in REPEAT_TOKENS {
+            for &qi in &qs {
+                for k in [130usize, 300] {
+                    reps.push((*t, qi, k));
+                }
+            }
+        }
+        ctx.par_sweep("repeated", reps.into_par_iter(), |(t, qi, k)| check_repeat(t, qi, k));
+    }
     let mut cases: Vec<Case> = Vec::new();
     for t in CORPUS {
         for p in 0..POSITIONS {
@@ -683,6 +761,10 @@ fn run(ctx: &mut Ctx) {
 }
 
 fn replay(_sub: &str, case: &Json) -> Option<CaseResult> {
+    if let Some(r) = case.get("repeat") {
+        let tok = r.get("token")?.as_str()?.to_string();
+        return Some(check_repeat(&tok, r.get("q")?.as_u64()? as usize, r.get("k")?.as_u64()? as usize));
+    }
     if let Some(qi) = case.get("options_api").and_then(|q| q.as_u64()) {
         return Some(check_options_api(qi as usize));
     }
